@@ -86,9 +86,10 @@ func firstDiff(a, b []string) string {
 // ------------------------------------------------------------------------------------------ L1
 
 type c16L1State struct {
-	ctx sdk.Context
-	w   *world.L1
-	nbr int
+	ctx   sdk.Context
+	w     *world.L1
+	nbr   int
+	depth int // used by C18's gas-limit sweep only
 }
 
 type c16L1Sys struct {
